@@ -41,6 +41,7 @@ class WouldBlock(BaseException):
 class FakeLock:
     def __init__(self):
         self.held = False
+        self.on_release = None
 
     def acquire(self, blocking=True, timeout=-1):
         if self.held:
@@ -54,6 +55,8 @@ class FakeLock:
         if not self.held:
             raise RuntimeError('release unlocked lock')
         self.held = False
+        if self.on_release is not None:
+            self.on_release()        # a thread that waited for the lock runs now
 
     def locked(self):
         return self.held
@@ -123,6 +126,7 @@ class Rig:
         for k, v in list(vars(self.mem).items()):
             if type(v).__name__ == 'lock' and hasattr(v, 'acquire'):
                 fl = FakeLock()
+                fl.on_release = self._lock_released
                 setattr(self.mem, k, fl)
                 self.locks.append(fl)
         if not self.locks:
@@ -143,6 +147,13 @@ class Rig:
         self.flat = []             # the history as executed: nested (re-entrant) operations as events of their own
         self.frames = []           # observation frames of the event being executed
         self.in_disc = False
+        self.early = False         # EARLY replies: the reply to a request packet sent by a caller's thread is dispatched
+        #                            before that thread executes its next statement (at once; if the caller holds
+        #                            the write lock, as soon as it releases it: the dispatcher waited for the lock)
+        self.in_call = 0           # inside read() / write() / refresh() ... made by the caller's thread
+        self.in_delivery = 0       # inside the dispatcher (a packet handler, the link-drop handler)
+        self.early_queue = []
+        self.early_done = []       # replies delivered early, in order
         self.note_count = 0        # notifications delivered so far
         self.policy = []           # [n, request] : the listener of the n-th notification issued that request
         self.top = []              # the top-level events as executed
@@ -281,6 +292,14 @@ class Rig:
         self.stream.append(('dop', ev, u0))
         dk = self._deck(ev[1])
         tok = ev[4]
+        self.in_call += 1
+        try:
+            self._issue_deck_call(dk, ev, tok, u0)
+        finally:
+            self.in_call -= 1
+        self.stream.append(('dopret', ev, u0, self.uid))
+
+    def _issue_deck_call(self, dk, ev, tok, u0):
         if ev[0] == 'DR':
             self.last_read_ret = None
             if self.mgr._read_complete_cb is None:      # otherwise the manager refuses ('Read operation ongoing')
@@ -303,7 +322,6 @@ class Rig:
             else:
                 dk.write(ev[2], bytearray(ev[3]), lambda a: self._dnote('dwok', tok, a))
             self.cur += [6, 1]
-        self.stream.append(('dopret', ev, u0, self.uid))
 
     # ---- frames, re-entrant listeners
     def _new_frame(self, fresh):
@@ -333,16 +351,26 @@ class Rig:
         self.stream.append(('op', ev, u0))
         react = ev[4] if ev[0] == 'R' and len(ev) > 4 else ev[5] if ev[0] == 'W' and len(ev) > 5 else None
         m = self.new_mem(ev[1], react)
-        if ev[0] == 'R':
-            r = self.mem.read(m, ev[2], ev[3])
-            if r:
+        self.in_call += 1
+        try:
+            # the uid is taken before the call: an early reply may complete the request, and its listener make another
+            # request, before the call returns
+            if ev[0] == 'R':
+                pred = ev[1] not in self.mem._read_requests
+                if pred:
+                    self.uid += 1
+                r = self.mem.read(m, ev[2], ev[3])
+                if bool(r) != pred:
+                    self.uid += 1 if r else -1
+            else:
                 self.uid += 1
-        else:
-            r = self.mem.write(m, ev[2], bytearray(ev[3]), flush_queue=bool(ev[4]))
-            if r:
-                self.uid += 1
+                r = self.mem.write(m, ev[2], bytearray(ev[3]), flush_queue=bool(ev[4]))
+                if not r:
+                    self.uid -= 1
+        finally:
+            self.in_call -= 1
         self.cur += [6, 1 if r else 0]
-        self.stream.append(('opret', ev, u0, self.uid))
+        self.stream.append(('opret', ev, u0, self.uid, bool(r)))
 
     # ---- the server
     def byte(self, i, a):
@@ -361,7 +389,42 @@ class Rig:
         if self.want_pre and chan == 2 and data:
             pre = {a: b for (j, a), b in self.image.items() if j == data[0]}
         self.stream.append(('s', chan, data, pre))
+        n0 = len(self.log)
         self.serve(chan, data)
+        self._maybe_early(n0)
+
+    # ---- early replies
+    def _maybe_early(self, n0):
+        if not self.early or self.in_call == 0 or self.in_delivery or len(self.log) == n0:
+            return
+        self.early_queue.append(len(self.log) - 1)
+        if not self.locked():
+            self._lock_released()
+
+    def _lock_released(self):
+        if not self.early or self.in_delivery or self.locked():
+            return
+        while self.early_queue:
+            k = self.early_queue.pop(0)
+            keep = self.cur
+            fr = {'fresh': self.fresh(['D', k]), 'obs': [], 'lock': None, 'nested': False, 'early': k}
+            self.frames.append(fr)
+            self.cur = fr['obs']
+            self.top.append(['D', k])
+            self.flat.append(['D', k])
+            self.early_done.append(k)
+            self.stream.append(('early', k))
+            try:
+                self.deliver(self.log[k][0], self.log[k][1])
+            except WouldBlock:
+                self.cur += [8]
+                self.last_hung = True
+            except Exception as e:
+                self.cur += [7]
+                self.last_raised = True
+                self.last_exc = '%s: %s' % (type(e).__name__, e)
+            fr['lockend'] = self.locked()
+            self.cur = keep
 
     def serve(self, chan, data):
         st = self.plan[self.served] if self.served < len(self.plan) else 0
@@ -411,7 +474,11 @@ class Rig:
         cbs = [cb for (port, cb) in self.cf.port_cbs if port == 4]
         if len(cbs) != 1:
             raise RuntimeError('expected exactly one callback on port 4, got %d' % len(cbs))
-        cbs[0](pk)
+        self.in_delivery += 1
+        try:
+            cbs[0](pk)
+        finally:
+            self.in_delivery -= 1
 
     def do(self, ev):
         """Execute one event on the real code; returns the integers of this event (and of the operations issued from
@@ -437,10 +504,12 @@ class Rig:
                     self.deliver(ev[1], ev[2])
                 elif ev[0] == 'X':
                     self.in_disc = True
+                    self.in_delivery += 1
                     try:
                         self.cf.disconnected.call('fake://0')
                     finally:
                         self.in_disc = False
+                        self.in_delivery -= 1
                     self._register()       # _clear_state() replaces the Caller objects
                     self.mgr = None        # the memories are enumerated again after a reconnect: a new manager
                     self._after_disc()
@@ -456,6 +525,9 @@ class Rig:
             self.last_exc = '%s: %s' % (type(e).__name__, e)
         out = [9, 1 if self.frames[0]['fresh'] else 0, 1 if self.locked() else 0] + self.frames[0]['obs']
         for f in self.frames[1:]:
+            if f.get('early') is not None:                      # an early reply: an event of its own right after the call
+                out += [9, 1 if f['fresh'] else 0, 1 if f.get('lockend') else 0] + f['obs']
+                continue
             out += [19, 1 if f['lock'] else 0] + f['obs']       # a request made from inside a notification
             if not f.get('in_disc') and len(f['obs']) > f.get('mark', len(f['obs'])):
                 self.obs_after_nested += 1
